@@ -39,11 +39,12 @@ res["suite_passes_with_change"] = suite_ok
 res["suite_failures_seen_before_passing"] = sorted(set(suite_fail_names))
 res["demo_fails_with_change"] = not rundemo()
 clean()
-# our checks against /repo
+# our checks against a scratch copy of /repo with the patch applied (never /repo itself:
+# a background run may be using it)
 det = {}
-st = sh("git -C /repo status --short").stdout.strip()
-assert not st, "repo not clean"
-sh(f"git -C /repo apply {src}/patch.diff")
+scratch = f"/tmp/seedrepo-{prop}-{m}"
+sh(f"rm -rf {scratch} && rsync -a --exclude .git /repo/ {scratch}/ && patch -s -p1 -d {scratch} < {src}/patch.diff")
+env["VERIF_REPO"] = scratch
 try:
     for c in checks:
         r = sh(f"cd /verif && ./check {c} --tier quick")
@@ -57,13 +58,14 @@ try:
                 first = {"line": v[0]}
         det[c] = {"exit": r.returncode, "violations": len(v), "first": first}
 finally:
-    sh("git -C /repo checkout -- .")
+    env.pop("VERIF_REPO", None)
+    sh(f"rm -rf {scratch}")
 res["checks"] = det
 out = f"/verif/seeded/{prop}-{m}"
 os.makedirs(out, exist_ok=True)
 shutil.copy(f"{src}/patch.diff", out); shutil.copy(f"{src}/demo_test.go", out)
 meta = {"property": prop, "demo_package_dir": pkgdir, "needs_to_manifest": open(f"{src}/meta.txt", errors="replace").read()[:3000],
         "confirmed": {k: res[k] for k in res if k != "checks"}, "detected_by": {c: d["violations"] > 0 for c, d in det.items()}, "checks": det,
-        "what_was_run": f"in scratch worktree {wt}: demo without change; git apply; go build ./...; go test -vet=off -count=1 ./... (TestDescriptor is flaky on the pinned tree too: up to 3 tries); demo with change; then patch applied to /repo, ./check <id> --tier quick for {checks}, git checkout"}
+        "what_was_run": f"in scratch worktree {wt}: demo without change; git apply; go build ./...; go test -vet=off -count=1 ./... (TestDescriptor is flaky on the pinned tree too: up to 3 tries); demo with change; then ./check <id> --tier quick for {checks} with VERIF_REPO = a scratch copy of /repo carrying the patch"}
 json.dump(meta, open(f"{out}/meta.json", "w"), indent=1)
 print(prop, m, {k: res[k] for k in res if k != "checks"}, {c: d["violations"] for c, d in det.items()})
